@@ -49,6 +49,7 @@ def forced_compatible(m, forced, final_qt=None):
     for i in range(0, len(forced), 2):
         opt, val = forced[i], forced[i + 1]
         if opt == "-O":
+            val = val.lower()
             eff = qt or final_qt
             if eff in ("NULL", "PRIVATE"):
                 continue        # opaque record types are relayed untouched
@@ -130,6 +131,15 @@ def scn(params):
             # somebody else used the server (directly, with non-default codecs) and vanished more than a minute ago
             tunnelscn.predecessor(sim, random.Random(params["rseed"] ^ 0x5EED))
             out["stats"]["with_predecessor"] = 1
+        if params.get("crowd"):
+            # the server is busy: that many other sessions logged in (directly) just before, so the client under test gets one
+            # of the upper slots (user ids 10..15 are the letters a..f in data names)
+            from simnet import mclient
+            for j in range(params["crowd"]):
+                mc = mclient.ModelClient("10.53.5.%d" % (j + 1), (scen.SERVER_IP, 53), sim.domain, sim.password, random.Random(params["rseed"] + j), qtype=proto.T_NULL)
+                k.add_actor(mc.ip, mc)
+                mc.connect()
+            out["stats"]["with_crowd"] = 1
         opts = ["-r"]
         forced = params.get("forced")
         judged = True
@@ -158,6 +168,12 @@ def scn(params):
                                           dict(wit, stderr=k.stderr_text(c, 1500), relay=dict(rl.stats))))
             elif h == "running":
                 out["inconclusive"] = "forced-handshake-still-running"
+            elif "-T" not in forced and m["allowed"] == ORDER and forced_compatible(m, forced, "TXT") and forced_compatible(m, forced, "CNAME"):
+                # only the downstream codec was forced, every record type passes and the path carries that codec in names and in
+                # TXT text: nothing stands in the way of the setting the user asked for
+                out["violations"].append(("C11:forced-codec-failed:%s:%s" % (forced[1].lower(), "/".join(m["acfg"])),
+                                          "the client started with %s did not complete the handshake (%s) although the path carries that codec" % (" ".join(forced), h),
+                                          dict(wit, stderr=k.stderr_text(c, 1500), relay=dict(rl.stats))))
             else:
                 out["nontrivial"].append(repr(("forced-option-refused-cleanly", tuple(forced), m["limit"], m["edns0"])))
             return out
@@ -361,8 +377,13 @@ def run(ctx):
         member = gen_member(rng, i // 2 if i < 70 else i)
         forced = None
         if i % 2 == 1:
-            w = rng.randrange(3)
-            if w == 0:
+            w = rng.randrange(4)
+            if w == 3:
+                # the codec forced and the fragment size given (no probing): the handshake has nothing left to find out
+                forced = ["-O", rng.choice(["base32", "base64", "base64u", "base128", "Base64u", "BASE64U", "Base128"]), "-m", rng.choice(["100", "80"])]
+                if rng.random() < 0.5:
+                    forced = ["-T", rng.choice(ORDER[2:])] + forced
+            elif w == 0:
                 forced = ["-T", rng.choice(ORDER)]
             elif w == 1:
                 forced = ["-O", rng.choice(["base32", "base64", "base64u", "base128", "raw"])]
@@ -370,6 +391,16 @@ def run(ctx):
                 forced = ["-T", rng.choice(ORDER), "-O", rng.choice(["base32", "base64", "base64u", "base128"])]
         plist.append({"idx": i, "seed": ctx.seed * 100000 + i, "rseed": rng.getrandbits(32), "member": member, "forced": forced,
                       "lazy0": rng.random() < 0.15, "pred": rng.random() < 0.3})
+        if i in (0, 4, 8, 20) or rng.random() < 0.12:
+            plist[-1]["crowd"] = rng.randint(10, 14)
+            plist[-1]["pred"] = False
+    # the downstream codec forced, on the paths each codec is there for, with the fragment size given (nothing is probed)
+    for j, (codec, acfg) in enumerate([("base64u", ("keep", "clean", "plus")), ("Base64u", ("keep", "strip", "plus")), ("base64", ("keep", "clean", "under")),
+                                       ("base128", ("keep", "clean", "plus")), ("base32", ("random", "strip", "plus")), ("BASE64U", ("keep", "reject", "plus"))]):
+        for t in (("TXT", "CNAME") if ctx.tier == "quick" else ("TXT", "SRV", "MX", "CNAME", "A")):
+            member = {"qcfg": list(CLEAN), "acfg": list(acfg), "allowed": list(ORDER), "limit": None, "edns0": True, "refuse": "servfail"}
+            plist.append({"idx": n + len(plist), "seed": ctx.seed * 100000 + 50000 + len(plist), "rseed": rng.getrandbits(32), "member": member,
+                          "forced": ["-T", t, "-O", codec, "-m", "100"], "lazy0": False, "pred": False})
     # the same client against a server that merely follows the protocol document (not built from this tree)
     slist = []
     for i in range(ctx.pick(64, 4000)):
